@@ -455,6 +455,8 @@ class FnTranslator:
             v, ty, ok = self.ex(e[1], env)
             if ty == "bfe" and e[2] == "0":
                 return v, "u64", ok
+            if ty == "xfe" and e[2] == "coefficients":
+                return v, ("array3", "bfe"), ok
             if isinstance(ty, tuple) and ty[0] == "tuple":
                 raise Untranslatable("tuple field access")
             raise Untranslatable("%s: field .%s on %s" % (self.name, e[2], ty))
@@ -614,6 +616,11 @@ class FnTranslator:
             if ty != "u64":
                 raise Untranslatable("BFieldElement(..) of %s" % ty)
             return v, "bfe", ok
+        if name in getattr(self.ctx, "xfe_ctors", ()) and len(args) == 1 and args[0][0] == "array" and len(args[0][1]) == 3:
+            parts = [self.ex(p_, env, "bfe") for p_ in args[0][1]]
+            if any(p_[1] != "bfe" for p_ in parts):
+                raise Untranslatable("%s: XFieldElement::new of non-bfe" % self.name)
+            return "(" + ", ".join(p_[0] for p_ in parts) + ")", "xfe", conj([p_[2] for p_ in parts])
         m = re.match(r"([ui](?:8|16|32|64|128|size))::from$", name)
         if m and len(args) == 1:
             v, ty, ok = self.ex(args[0], env)
@@ -746,6 +753,10 @@ class FnTranslator:
             if len(pat[1]) != 2:
                 raise Untranslatable("tuple pattern arity")
             return "'(" + ", ".join(self.bind(p, t, env) for p, t in zip(pat[1], ty[1])) + ")"
+        if pat[0] == "parray":
+            if not (isinstance(ty, tuple) and ty[0] == "array3" and len(pat[1]) == 3):
+                raise Untranslatable("%s: array pattern against %s" % (self.name, ty))
+            return "'(" + ", ".join(self.bind(p, ty[1], env) for p in pat[1]) + ")"
         raise Untranslatable("pattern %s" % (pat,))
 
     def blk(self, b, env, hint=None):
@@ -839,6 +850,8 @@ def coq_ty(ty):
         return "bool"
     if isinstance(ty, tuple) and ty[0] == "tuple":
         return "(" + " * ".join(coq_ty(t) for t in ty[1]) + ")"
+    if ty == "xfe":
+        return "(Z * Z * Z)"
     return "Z"
 
 
